@@ -1,7 +1,5 @@
 package main
 
-func c20Witnesses(c *Cfg)           {}
-func c20FlatFamily(c *Cfg, r *Rng)  {}
-func c20Generated(c *Cfg, r *Rng)   {}
-func c20Seeds(c *Cfg, r *Rng)       {}
-func c20CLI(c *Cfg, r *Rng)         {}
+func c20Witnesses(c *Cfg)          {}
+func c20FlatFamily(c *Cfg, r *Rng) {}
+func c20CLI(c *Cfg, r *Rng)        {}
